@@ -1,0 +1,12 @@
+//go:build !verif
+// +build !verif
+
+package skiplist
+
+import "sync"
+
+// Verification hooks are compiled out without the `verif` build tag.
+
+func verifYield(point int) {}
+
+func verifLockWait(m *sync.Mutex) {}
